@@ -408,18 +408,26 @@ func c05DerivedCmp(f *engine.Fn, params []types.Object, is32, le bool) (bool, st
 	if len(params) != 2 {
 		return false, "expected two parameters"
 	}
+	// helpers of the wrapper file (not the runtime copy) are looked through:
+	// `cmp, nan := fcmp32(f, g)` with fcmp32 returning fcmp64(f32to64(f), f32to64(g))
+	opt := gvaNormOpt{Inline: func(h *engine.Fn) bool {
+		if engine.Rel(h.Pkg.PkgPath) != c05SF || h.Obj == nil || h.Obj.Exported() {
+			return false
+		}
+		return filepath.Base(h.Prog.Fset.Position(h.Pos()).Filename) != "runtime_softfloat64.go"
+	}}
 	var as *ast.AssignStmt
+	var ct *gvaTerm
 	engine.InspectBody(f, func(n ast.Node) {
 		if x, ok := n.(*ast.AssignStmt); ok && len(x.Lhs) == 2 && len(x.Rhs) == 1 {
-			if _, cn := gvaCallee(info, x.Rhs[0]); cn == c05SF+".fcmp64" {
-				as = x
+			if t := gvaNorm(f, x.Rhs[0], nil, opt, 0); t.Kind == "call" && t.Name == c05SF+".fcmp64" {
+				as, ct = x, t
 			}
 		}
 	})
 	if as == nil {
-		return false, "no `cmp, nan := fcmp64(…)` binding"
+		return false, "no `cmp, nan := fcmp64(…)` binding (directly or through a wrapper-file helper)"
 	}
-	ct := gvaNorm(f, as.Rhs[0], nil, gvaNormOpt{}, 0)
 	if len(ct.Args) != 2 {
 		return false, "comparison must come from fcmp64(f, g)"
 	}
